@@ -886,3 +886,94 @@ def rule_stack_read_live(db: ProgramDB) -> List[Instance]:
         out.append(inst("STACK-READ-LIVE", HOLDS, se, "SymbolicExpression[context stack read at call time only]", "no read of the stack outside a function body, no alias kept"))
     return out
 
+
+
+# ---------------------------------------------------------------------------------- NO-SHARED-DEFAULT
+_MUTABLE_CTORS = {"list", "dict", "set", "defaultdict", "deque", "OrderedDict", "bytearray", "Counter"}
+_MUTATORS = {"append", "extend", "insert", "pop", "remove", "clear", "update", "add", "discard", "setdefault", "popitem", "sort", "reverse", "appendleft"}
+
+
+def _shared_default_uses(db: Optional[ProgramDB], fnode: ast.AST) -> List[Tuple[str, ast.AST, Optional[ast.AST]]]:
+    """[(parameter, default, first statement that lets the default object out of the call or changes it)] for the parameters whose default
+    is an object created once, when the function is defined."""
+    a = fnode.args
+    pos = a.posonlyargs + a.args
+    pairs = list(zip(pos[len(pos) - len(a.defaults):], a.defaults)) + [(p, d) for p, d in zip(a.kwonlyargs, a.kw_defaults) if d is not None]
+    res = []
+    body = fnode.body if isinstance(fnode.body, list) else [fnode.body]
+    for p, d in pairs:
+        created = isinstance(d, (ast.List, ast.Dict, ast.Set, ast.ListComp, ast.DictComp, ast.SetComp))
+        if isinstance(d, ast.Call):
+            nm = dotted(d.func) or ""
+            last = nm.split(".")[-1]
+            created = last in _MUTABLE_CTORS or (db is not None and last in db.class_by_name and last[:1].isupper())
+        if not created:
+            continue
+        name = p.arg
+        how = None
+        for st in body:
+            for x in ast.walk(st):
+                par = None
+                if isinstance(x, ast.Name) and x.id == name and isinstance(x.ctx, ast.Load):
+                    par = db.parent(x) if db is not None else _parent_in(st, x)
+                    if isinstance(par, ast.Attribute) and par.value is x:
+                        gp = db.parent(par) if db is not None else _parent_in(st, par)
+                        if isinstance(gp, ast.Call) and gp.func is par and par.attr in _MUTATORS:
+                            how = how or st
+                        continue
+                    if isinstance(par, ast.Subscript) and par.value is x:
+                        if isinstance(par.ctx, (ast.Store, ast.Del)):
+                            how = how or st
+                        continue
+                    if isinstance(par, ast.Compare) or isinstance(par, (ast.For, ast.comprehension)) and par.iter is x:
+                        continue
+                    if isinstance(par, ast.Call) and isinstance(par.func, ast.Name) and par.func.id in ("len", "bool", "iter", "list", "tuple", "dict", "set", "sorted",
+                                                                                                         "copy", "isinstance", "enumerate", "any", "all"):
+                        continue
+                    if isinstance(par, (ast.If, ast.While, ast.IfExp)) and par.test is x or isinstance(par, ast.UnaryOp) and isinstance(par.op, ast.Not):
+                        continue
+                    if isinstance(par, ast.BoolOp) and isinstance(db.parent(par) if db is not None else _parent_in(st, par), (ast.If, ast.While)):
+                        continue
+                    inner = x                # stored, returned, yielded, handed to another function
+                    while inner is not None and not isinstance(inner, ast.stmt):
+                        inner = db.parent(inner) if db is not None else _parent_in(st, inner)
+                    how = how or inner or st
+        res.append((name, d, how))
+    return res
+
+
+def _parent_in(root: ast.AST, node: ast.AST) -> Optional[ast.AST]:
+    for p in ast.walk(root):
+        for ch in ast.iter_child_nodes(p):
+            if ch is node:
+                return p
+    return None
+
+
+def rule_no_shared_default(db: ProgramDB) -> List[Instance]:
+    """An object written as a parameter default is created once, when the function is defined, and every call that leaves the parameter out
+    gets that one object.  The context stack an evaluation works on, the accumulator of a walk, the list a helper fills: each is meant to
+    be new per call.  Rule: no parameter default creates a mutable object that the body stores, returns, hands on or changes.  (A default that
+    is only read - iterated, tested - is shared harmlessly.)  The detector is run on a three-line example on every run, so that an empty result is not
+    an empty search."""
+    probe = ast.parse("def f(a, stack=[], seen=set(), ro=()):\n    G.stack = stack\n    for s in seen:\n        pass\n    return ro\n").body[0]
+    got = {n: h is not None for n, _d, h in _shared_default_uses(None, probe)}
+    if got != {"stack": True, "seen": False}:
+        raise AnalysisError(f"NO-SHARED-DEFAULT: the detector does not find the shared default of its own example ({got})")
+    out = []
+    n_fn = n_def = 0
+    for fn in sorted(db.all_functions(), key=lambda f: f.qualname):
+        nodes = [fn.node] + [x for x in ast.walk(fn.node) if isinstance(x, ast.Lambda)]
+        for node in nodes:
+            n_fn += 1
+            a = node.args
+            n_def += len(a.defaults) + sum(1 for d in a.kw_defaults if d is not None)
+            for name, d, how in _shared_default_uses(db, node):
+                out.append(inst("NO-SHARED-DEFAULT", VIOLATION if how is not None else HOLDS, fn, f"{fn.short}[default of {name}]",
+                                f"`{name}={unparse(d)}` is one object for all calls, and `{unparse(how)[:90]}` stores, hands on or changes it: calls that leave "
+                                f"`{name}` out share what should be new per call (for the context stack of an evaluation: every evaluation and every call of user "
+                                f"code then works on the same list, and a block left open by one is found open by the next)" if how is not None else
+                                f"`{name}={unparse(d)}` is shared by all calls but only read", line=d.lineno))
+    out.append(inst("NO-SHARED-DEFAULT", HOLDS, "src/entity_query_language", "package[parameter defaults]",
+                    f"{n_fn} functions and lambdas, {n_def} parameter defaults examined"))
+    return out
